@@ -68,6 +68,13 @@ class Gen:
             k = 1 + (L % 5)
             cls = "len%%32=%s" % ("0" if L % 32 == 0 else ("1" if L % 32 == 1 else ("31" if L % 32 == 31 else "mid")))
             self.enc("enc", d, r.bytes(L), [k], "enc:dense:%s:blocks=%d" % (cls, (L + 31) // 32))
+        # the largest legal ciphertext: 255 bytes and both C1 coordinates with the top bit set (366 octets)
+        kmax = 2
+        while True:
+            C = E.mul(kmax, E.G)
+            if C[0] >> 255 and C[1] >> 255: break
+            kmax += 1
+        self.enc("enc", small[1], r.bytes(255), [kmax], "enc:max-size-366")
         # random keys and nonces
         lens = [1, 2, 31, 32, 33, 64, 65, 254, 255]
         for i, L in enumerate(lens + [r.range(1, 255) for _ in range(6 if not self.thorough else 60)]):
@@ -275,6 +282,13 @@ def phase2(g, first, impl, model):
             L = len(m)
             if side == "model" and d <= 3 and L in (1, 32, 33, 255) and L not in malformed_base and c["cell"].startswith("enc:dense"):
                 malformed_base[L] = (d, ct, m)
+            if c["cell"] == "enc:max-size-366" and len(ct) == 366:
+                g.dstream(d, [ct], "dstream:total=366:one-chunk", expect=exp)
+                g.dstream(d, [ct[:100], ct[100:365], ct[365:]], "dstream:total=366:last-byte-alone", expect=exp)
+                g.dstream(d, [ct[:365], ct[365:]], "dstream:total=366:365+1", expect=exp)
+                g.dstream(d, [b"", ct, b""], "dstream:total=366:empty-chunks", expect=exp)
+                g.dstream(d, [ct, b"\0"], "dstream:total=367", expect="ERR")
+                g.dstream(d, [ct[:366 - 1]], "dstream:total=365:truncated", expect="ERR")
             if side == "model" and c["cell"] in ("estream:3-chunks", "enc:dense:len%32=mid:blocks=4"):
                 g.dstream(d, r.split(ct, 3), "dstream:valid", expect=exp)
     gen_malformed(g, malformed_base)
@@ -287,6 +301,10 @@ def gen_invalid_curve(g):
     stops them is the on-curve test of C1"""
     r = g.r
     todo = []
+    # C1 = (0,0) (the encoding of infinity): [d]C1 = infinity = (0,0) for EVERY key, so anyone can
+    # compute C2 / C3; only the refusal of from_bytes' 0 stands in the way
+    for kn, d in (g.keys[1], g.keys[4], g.keys[3]):
+        todo.append(("infinity:" + kn, d, 0, 0, r.bytes(r.range(1, 40))))
     for kn, d in (g.keys[1], g.keys[2], g.keys[4]):
         for i in range(2):
             qx, qy = g.rnd(P_), g.rnd(P_)
